@@ -87,11 +87,16 @@ TouchesX(x, y) ==
   \E X \in XPts :
     /\ x \in {XFace(X) - 1, XFace(X)}
     /\ (\E r \in StartsAt(X) : y = RY0(r)) \/ (\E r \in EndsAt(X) : y = LastRow(r))
+\* rows of cells whose y-face is the poloidal position of an X-point (flux surfaces bend sharply there)
+XRow(y) == \E X \in XPts : (\E r \in StartsAt(X) : y = RY0(r)) \/ (\E r \in EndsAt(X) : y = LastRow(r))
 InDom(dom, x, y) ==
   CASE dom = "all" -> TRUE
     [] dom = "cells" -> ~IsGuard(y)
     [] dom = "awayX" -> ~TouchesX(x, y)
     [] dom = "cellsAwayX" -> ~IsGuard(y) /\ ~TouchesX(x, y)
+    \* divertor legs only: the few, strongly curved cells of a coarse core make finite displacements
+    \* a poor estimate of the tangent vectors
+    [] dom = "legsAwayX" -> Kind(T, Order(T)[RegY(y)]) \in {"wall.X", "X.wall"} /\ ~XRow(y)
     [] OTHER -> FALSE
 SameSign(a, b) == (a > 0) = (b > 0) /\ (a < 0) = (b < 0)
 PairOK(p) ==
